@@ -227,6 +227,25 @@ class TemplateExecutor(Executor):
             return SV(n, INT)
         return super().b_len(args, kw, node, fr)
 
+    def _all_any(self, which, args, kw, node, fr, base):
+        """all(...) / any(...) over a sequence of symbolic length: an uninterpreted predicate of the sequence of
+        tested values (sound: the same sequence gives the same answer, nothing else is known)"""
+        (v,) = args
+        from .engine2 import GenResult
+
+        if isinstance(v, GenResult) and v.items is None:
+            v = v.yielded
+        if isinstance(v, SV) and v.ty.kind == "seq":
+            self.w.used_assumption(f"{which}() over a sequence of symbolic length is an uninterpreted predicate of that sequence")
+            return SV(uf(f"{which}_of_{re.sub(chr(92) + 'W', '_', str(v.ty.sort()))}", [v.ty.sort()], z3.BoolSort())(v.z), BOOL)
+        return base(args, kw, node, fr)
+
+    def b_all(self, args, kw, node, fr):
+        return self._all_any("all", args, kw, node, fr, super().b_all)
+
+    def b_any(self, args, kw, node, fr):
+        return self._all_any("any", args, kw, node, fr, super().b_any)
+
     def b_str(self, args, kw, node, fr):
         if args and isinstance(args[0], SV) and args[0].ty.kind == "val":
             return self.opaque_call("str", args, {})
@@ -308,6 +327,20 @@ class TemplateExecutor(Executor):
         return super().s_For(s2, fr)
 
     def compare(self, op, a, b, node=None):
+        from .world import TypeOfVal
+
+        if isinstance(a, TypeOfVal):
+            def one(cls):
+                nm = re.sub(r"\W", "_", str(getattr(cls, "name", None) or getattr(cls, "__name__", None) or "x"))
+                return uf("exact_type_" + nm, [VAL_SORT], z3.BoolSort())(a.v.z)
+
+            if isinstance(op, (ast.Is, ast.IsNot, ast.Eq, ast.NotEq)) and isinstance(b, (type, Builtin)):
+                r = one(b)
+                return SV(z3.Not(r) if isinstance(op, (ast.IsNot, ast.NotEq)) else r, BOOL)
+            if isinstance(op, (ast.In, ast.NotIn)) and isinstance(b, (tuple, list)) and all(isinstance(c, (type, Builtin)) for c in b):
+                r = z3.Or([one(c) for c in b])
+                return SV(z3.Not(r) if isinstance(op, ast.NotIn) else r, BOOL)
+            raise OutOfSubset("type(x) compared with something that is not a class")
         if isinstance(op, (ast.In, ast.NotIn)) and (isinstance(b, SV) and b.ty.kind == "val" or isinstance(a, (OpaqueValue, type)) and not isinstance(b, (tuple, list))):
             r = SV(uf("contains", [VAL_SORT, VAL_SORT], z3.BoolSort())(self.to_val(b).z, self.to_val(a).z), BOOL)
             return SV(z3.Not(r.z), BOOL) if isinstance(op, ast.NotIn) else r
